@@ -20,7 +20,7 @@ EXPLANATION = (
     "of an array, or entries validated by such a stamp; id() / partial keys are reported with the quantity the key misses); "
     "functions that mutate a parameter are called with fresh values only and no cached property value is stored into; every "
     "iteration over an unordered collection - or over a mapping whose key order was inherited from one (the merged configuration) - has a "
-    "commutative body (keyed stores only when different members give different keys); no ambient source (time, random, environment, cwd, id) "
+    "commutative body (keyed stores only when different members give different keys) and no sequence is made from a set outside an order-insensitive consumer; no ambient source (time, random, environment, cwd, id) "
     "is used in the package outside the allow-listed CLI logging set-up; the crystal-system lookup cannot be shadowed by a "
     "working-directory entry; every file written on the output path is opened with 'w' (installed qha writers included) and "
     "the appending qha writer is not reachable; shear inputs are assigned before use. Positive-control fixtures for each "
